@@ -1111,7 +1111,15 @@ impl C27 {
                         res.tags.push(format!("cwraw:{}", o.line.split_whitespace().next().unwrap_or("")));
                         o.line
                     }
-                    None => "panic".into(),
+                    None => {
+                        // levels below 2^15 that fit their maxima must pack and parse without a panic
+                        let fits = rep.as_ref().map_or(true, |r| r.iter().all(|x| *x <= maxrep))
+                            && def.as_ref().map_or(true, |r| r.iter().all(|x| *x <= maxdef));
+                        if fits && maxrep < 32768 && maxdef < 32768 {
+                            fail(res, "control_word_panic", "packing / parsing control words panicked".into());
+                        }
+                        "panic".into()
+                    }
                 }
             }
             ["file", mode] => {
@@ -1380,7 +1388,6 @@ fn random_stack(rng: &mut Rng, depth_max: usize, rows_max: usize, allow_fsl: boo
     let mut mask = vec![true; slots];
     let null_pct = *rng.pick(&[0u64, 10, 30, 60, 100]);
     let empty_pct = *rng.pick(&[0u64, 10, 30, 60]);
-    let mut has_list = false;
     for k in 0..depth {
         let last = k + 1 == depth;
         let r = rng.below(10);
@@ -1416,7 +1423,6 @@ fn random_stack(rng: &mut Rng, depth_max: usize, rows_max: usize, allow_fsl: boo
                 slots *= dim;
             }
             _ => {
-                has_list = true;
                 let garbage = rng.chance(1, 4);
                 let mut lens = vec![];
                 let mut total = 0u64;
@@ -1526,7 +1532,7 @@ impl Prop for C27 {
             let maxrep: u64 = if br == 0 { 0 } else { rng.range(1 << (br - 1), (1 << br) - 1) };
             let maxdef: u64 = if bd == 0 { 0 } else { rng.range(1 << (bd - 1), (1 << bd) - 1) };
             let n = rng.usize(6);
-            let mut lv = |max: u64, rng: &mut Rng| -> String {
+            let lv = |max: u64, rng: &mut Rng| -> String {
                 let v: Vec<u64> = (0..n)
                     .map(|_| match rng.below(4) {
                         0 => max,
